@@ -45,11 +45,11 @@ Lemma print_group_expr (g : group) : g <> [] -> forallb (fun r => negb (r_s r)) 
 Proof.
   unfold group_expr, print_g. induction g as [|r rest IH]; [congruence|]. intros _ H.
   cbn [forallb] in H. apply andb_true_iff in H. destruct H as [Hr Hrest].
-  apply negb_true_iff in Hr.
+  apply negb_true_iff in Hr. destruct r as [s n]. cbn [r_s] in Hr. subst s.
   destruct rest as [|r2 rest'].
-  - cbn. unfold print_r. now rewrite Hr.
+  - reflexivity.
   - cbn [map] in *. rewrite big_op_cons2, join_toks_cons2. cbn [print_e].
-    rewrite IH by (auto; discriminate). unfold print_r at 2. now rewrite Hr.
+    rewrite IH by (auto; discriminate). reflexivity.
 Qed.
 
 (* ================= the pairs of a chain ================= *)
@@ -120,4 +120,407 @@ Proof.
   intros Hok. rewrite split_chain. unfold chain_eoc, final_pieces. rewrite last_map_print_g.
   destruct (rev (ch_groups c)) as [|g rest] eqn:E; [reflexivity|].
   apply join_and_split. eapply rev_groups_ok; eauto.
+Qed.
+
+(* ================= actions as a function of the pair's tokens ================= *)
+Definition right_actions_t (eoc : list (list tok)) (expr : list tok) (atoms : list atom)
+    (piece : list tok) : list action :=
+  match parse_rhs piece with
+  | Some (s, n) => right_actions eoc expr atoms (mkR s n)
+  | None => []
+  end.
+
+Definition pair_actions (eoc : list (list tok)) (p : pair) : list action :=
+  match fst p with
+  | None => right_actions_t eoc [] [] (snd p)
+  | Some lt =>
+      let lefts := if is_nil lt || existsb is_or lt || existsb is_lp lt
+                   then [lt] else split_on is_and lt in
+      flat_map (fun l => match expand_left [] l with
+                         | Ok ea => flat_map (right_actions_t eoc (fst ea) (snd ea))
+                                             (split_on is_and (snd p))
+                         | _ => []
+                         end) lefts
+  end.
+
+Definition good (d : pdesc) : bool :=
+  match d with
+  | PAuto n => node_fin_ok n
+  | PMain L G =>
+      negb (is_nil G)
+      && forallb (fun r => Nat.eqb (n_off (r_n r)) 0 && (r_s r || node_fin_ok (r_n r))) G
+      && forallb (node_accepted []) (nodes_e L)
+  end.
+
+Definition acts_of (eoc : list (list tok)) (d : pdesc) : list action :=
+  match d with
+  | PAuto n => auto_actions eoc n
+  | PMain L G => main_actions eoc L G
+  end.
+
+Lemma lefts_of_print L :
+  (if is_nil (print_e L) || existsb is_or (print_e L) || existsb is_lp (print_e L)
+   then [print_e L] else split_on is_and (print_e L)) = map print_e (left_pieces L).
+Proof.
+  unfold left_pieces.
+  assert (Hn : is_nil (print_e L) = false)
+    by (destruct (print_e L) eqn:Ep; [exfalso; eapply print_e_nonempty; eauto|reflexivity]).
+  rewrite Hn. cbn [orb]. destruct (has_or_par L) eqn:Eh.
+  - rewrite (has_or_par_true L Eh). reflexivity.
+  - destruct (has_or_par_false L Eh) as [H1 H2]. rewrite H1, H2. cbn [orb].
+    apply (split_and_pieces L Eh).
+Qed.
+
+Lemma flat_map_map {A B C} (f : B -> list C) (g : A -> B) l : flat_map f (map g l) = flat_map (fun x => f (g x)) l.
+Proof. induction l; cbn; congruence. Qed.
+
+Lemma flat_map_ext_in {A B} (f g : A -> list B) l : (forall x, In x l -> f x = g x) -> flat_map f l = flat_map g l.
+Proof. induction l as [|a r IH]; cbn; intros H; [reflexivity|]. rewrite H by now left. f_equal. apply IH. intros x Hx. apply H. now right. Qed.
+
+Lemma right_actions_t_print eoc expr atoms r : right_actions_t eoc expr atoms (print_r r) = right_actions eoc expr atoms r.
+Proof. unfold right_actions_t. rewrite parse_print_r. destruct r; reflexivity. Qed.
+
+Lemma pair_actions_of eoc d : good d = true -> pair_actions eoc (pair_of d) = acts_of eoc d.
+Proof.
+  destruct d as [n|L G]; cbn [good pair_of acts_of]; intros Hg; [reflexivity|].
+  apply andb_true_iff in Hg. destruct Hg as [Hg Hacc]. apply andb_true_iff in Hg. destruct Hg as [Hne HG].
+  unfold pair_actions, main_actions. cbn [fst snd]. rewrite lefts_of_print, flat_map_map.
+  apply flat_map_ext_in. intros p Hp.
+  rewrite expand_left_stored.
+  - cbn [fst snd]. rewrite join_and_split by (destruct G; [discriminate|discriminate]).
+    rewrite flat_map_map. apply flat_map_ext_in. intros r _. apply right_actions_t_print.
+  - apply forallb_forall. intros n Hn. rewrite forallb_forall in Hacc. apply Hacc.
+    eapply left_pieces_nodes; eauto.
+Qed.
+
+Lemma proc_pair_desc eoc st d : good d = true ->
+  exists sb, ps_ct sb = ps_ct st
+    /\ proc_pair [] eoc st (pair_of d)
+       = lift (fold_res apply_core (pair_actions eoc (pair_of d)) (core_of st)) sb.
+Proof.
+  intros Hg. rewrite (pair_actions_of eoc d Hg).
+  destruct d as [n|L G]; cbn [good pair_of acts_of] in *.
+  - now apply proc_pair_auto.
+  - apply andb_true_iff in Hg. destruct Hg as [Hg Hacc]. apply andb_true_iff in Hg. destruct Hg as [Hne HG].
+    apply proc_pair_main; [destruct G; [discriminate|discriminate]| |exact Hacc].
+    intros r Hr. rewrite forallb_forall in HG. specialize (HG r Hr).
+    apply andb_true_iff in HG. destruct HG as [H1 H2]. apply Nat.eqb_eq in H1. auto.
+Qed.
+
+Lemma fold_pairs eoc : forall (ds : list pdesc) st,
+  (forall d, In d ds -> good d = true) ->
+  exists sb, ps_ct sb = ps_ct st
+    /\ fold_res (proc_pair [] eoc) (map pair_of ds) st
+       = lift (fold_res apply_core (flat_map (pair_actions eoc) (map pair_of ds)) (core_of st)) sb.
+Proof.
+  induction ds as [|d rest IH]; intros st Hg.
+  - exists st. split; [reflexivity|]. cbn. unfold with_core, core_of. destruct st; reflexivity.
+  - cbn [map fold_res flat_map]. rewrite fold_res_app.
+    destruct (proc_pair_desc eoc st d (Hg d (or_introl eq_refl))) as [sb1 [Hct1 E1]]. rewrite E1.
+    destruct (fold_res apply_core (pair_actions eoc (pair_of d)) (core_of st)) as [c| |]; cbn [lift bind].
+    + destruct (IH (with_core sb1 c)) as [sb [Hct E]]; [intros d' Hd'; apply Hg; now right|].
+      exists sb. split; [cbn in Hct; congruence|]. rewrite E, core_with. reflexivity.
+    + exists st. auto.
+    + exists st. auto.
+Qed.
+
+(* ================= folding a mixed list of actions over the two stores ================= *)
+Definition act_oasserts (acts : list action) : list oassert :=
+  flat_map (fun a => match a with AOpt o => [o] | _ => [] end) acts.
+Definition act_tasserts (acts : list action) : list tassert :=
+  flat_map (fun a => match a with ATrig m t => [(m, tg_expr t, tg_suicide t)] | _ => [] end) acts.
+Definition act_tasks (acts : list action) : list name :=
+  flat_map (fun a => match a with ATrig m _ => [m] | _ => [] end) acts.
+
+Definition om_nodup (om : optmap) : Prop := NoDup (map fst om).
+
+Lemma assoc_none_notin k (om : optmap) : assoc optkey_eqb k om = None -> ~ In k (map fst om).
+Proof.
+  induction om as [|[k' v] r IH]; cbn; [tauto|].
+  destruct (optkey_eqb k k') eqn:E; [discriminate|]. intros H [H1|H1]; [|now apply IH].
+  subst. rewrite (proj2 (optkey_eqb_true _ _) eq_refl) in E. discriminate.
+Qed.
+
+Lemma nodup_snoc {A} (l : list A) x : NoDup l -> ~ In x l -> NoDup (l ++ [x]).
+Proof.
+  induction l as [|y r IH]; cbn; intros Hnd Hx; [repeat constructor; intros []|].
+  inversion Hnd as [|? ? Hy Hr]; subst. constructor.
+  - intros H. apply in_app_or in H. destruct H as [H|[H|[]]]; [contradiction|subst; apply Hx; now left].
+  - apply IH; [exact Hr|]. intros H. apply Hx. now right.
+Qed.
+
+Lemma core_fold_ok : forall (acts : list action) tm om,
+  tm_inv tm -> om_inv om -> om_nodup om ->
+  forallb oassert_guard (act_oasserts acts) = true ->
+  (forall x y, (om_has om x \/ In x (act_oasserts acts)) ->
+               (om_has om y \/ In y (act_oasserts acts)) -> ocompat x y = true) ->
+  (forall n e s s', e <> [] ->
+     (tm_has tm (n, e, s) \/ In (n, e, s) (act_tasserts acts)) ->
+     (tm_has tm (n, e, s') \/ In (n, e, s') (act_tasserts acts)) -> s = s') ->
+  exists tm' om',
+    fold_res apply_core acts (tm, om) = Ok (tm', om')
+    /\ tm_inv tm' /\ om_inv om' /\ om_nodup om'
+    /\ (forall a, om_has om' a <-> (om_has om a \/ In a (act_oasserts acts)))
+    /\ (forall n e s, e <> [] ->
+          (tm_has tm' (n, e, s) <-> (tm_has tm (n, e, s) \/ In (n, e, s) (act_tasserts acts))))
+    /\ (forall n, tm_task tm' n <-> (tm_task tm n \/ In n (act_tasks acts))).
+Proof.
+  induction acts as [|a rest IH]; intros tm om Htm Hom Hnd Hg Hoc Htc.
+  - exists tm, om. cbn. split; [reflexivity|]. split; [exact Htm|]. split; [exact Hom|]. split; [exact Hnd|].
+    split; [|split]; intros; tauto.
+  - destruct a as [m t|o].
+    + (* trigger *)
+      cbn [act_oasserts act_tasserts act_tasks flat_map app] in *.
+      destruct (set_trig_ok tm m t Htm) as [tm1 [E1 [Htm1 [Hh1 Ht1]]]].
+      { intros s' He Hhas. symmetry. apply (Htc m (tg_expr t) (tg_suicide t) s' He); [right; now left|now left]. }
+      destruct (IH tm1 om Htm1 Hom Hnd Hg) as [tm2 [om2 [E2 [Htm2 [Hom2 [Hnd2 [Ho2 [Hh2 Ht2]]]]]]]].
+      { exact Hoc. }
+      { intros n e s s' He Hs Hs'. apply (Htc n e s s' He).
+        - destruct Hs as [Hs|Hs]; [apply (Hh1 n e s He) in Hs; destruct Hs as [Hs|Hs]; [now left|right; left; now symmetry]|right; now right].
+        - destruct Hs' as [Hs'|Hs']; [apply (Hh1 n e s' He) in Hs'; destruct Hs' as [Hs'|Hs']; [now left|right; left; now symmetry]|right; now right]. }
+      exists tm2, om2. cbn [fold_res apply_core fst snd]. rewrite E1. cbn [bind].
+      split; [exact E2|]. split; [exact Htm2|]. split; [exact Hom2|]. split; [exact Hnd2|].
+      split; [exact Ho2|]. split.
+      * intros n e s He. split.
+        -- intros H. apply (Hh2 n e s He) in H. destruct H as [H|H]; [|right; now right].
+           apply (Hh1 n e s He) in H. destruct H as [H|H]; [now left|right; left; now symmetry].
+        -- intros H. apply (Hh2 n e s He). destruct H as [H|[H|H]].
+           ++ left. apply (Hh1 n e s He). now left.
+           ++ left. apply (Hh1 n e s He). right. now symmetry.
+           ++ now right.
+      * intros n. split.
+        -- intros H. apply Ht2 in H. destruct H as [H|H]; [|right; now right].
+           apply Ht1 in H. destruct H as [H|H]; [now left|right; left; now symmetry].
+        -- intros H. apply Ht2. destruct H as [H|[H|H]]; [left; apply Ht1; now left|left; apply Ht1; right; now symmetry|now right].
+    + (* optionality *)
+      cbn [act_oasserts act_tasserts act_tasks flat_map app forallb] in *.
+      apply andb_true_iff in Hg. destruct Hg as [Hg1 Hg2].
+      destruct o as [[n o] b].
+      destruct (set_opt1_ok om n o b Hom Hg1) as [om1 [E1 [Hom1 [Hr1 Hshape]]]].
+      { intros a' Ha'. apply Hoc; [right; now left|now left]. }
+      assert (Hnd1 : om_nodup om1).
+      { destruct Hshape as [->|[Hnone ->]]; [exact Hnd|].
+        unfold om_nodup. rewrite map_app. cbn. apply nodup_snoc; [exact Hnd|].
+        now apply assoc_none_notin. }
+      destruct (IH tm om1 Htm Hom1 Hnd1 Hg2) as [tm2 [om2 [E2 [Htm2 [Hom2 [Hnd2 [Ho2 [Hh2 Ht2]]]]]]]].
+      { intros x y Hx Hy. apply Hoc.
+        - destruct Hx as [Hx|Hx]; [apply Hr1 in Hx; destruct Hx as [Hx| ->]; [now left|right; now left]|right; now right].
+        - destruct Hy as [Hy|Hy]; [apply Hr1 in Hy; destruct Hy as [Hy| ->]; [now left|right; now left]|right; now right]. }
+      { exact Htc. }
+      exists tm2, om2. cbn [fold_res apply_core apply_o fst snd]. rewrite E1. cbn [bind].
+      split; [exact E2|]. split; [exact Htm2|]. split; [exact Hom2|]. split; [exact Hnd2|].
+      split; [|split; [exact Hh2|exact Ht2]].
+      intros a. split.
+      * intros H. apply Ho2 in H. destruct H as [H|H]; [|right; now right].
+        apply Hr1 in H. destruct H as [H| ->]; [now left|right; now left].
+      * intros H. apply Ho2. destruct H as [H|[<-|H]]; [left; apply Hr1; now left|left; apply Hr1; now right|now right].
+Qed.
+
+(* ================= de-duplication keeps the set ================= *)
+Lemma mem_spec {A} (eqb : A -> A -> bool) (Heq : forall x y, eqb x y = true <-> x = y) x l :
+  mem eqb x l = true <-> In x l.
+Proof. now apply mem_In. Qed.
+
+Lemma dedup_first_in {A} (eqb : A -> A -> bool) (Heq : forall x y, eqb x y = true <-> x = y) :
+  forall l seen x, In x (dedup_first eqb seen l) <-> (In x l /\ ~ In x seen).
+Proof.
+  induction l as [|y r IH]; intros seen x; cbn [dedup_first]; [cbn; tauto|].
+  destruct (mem eqb y seen) eqn:Em.
+  - apply (mem_spec eqb Heq) in Em. rewrite IH. cbn [In]. split; [tauto|].
+    intros [[->|H] Hn]; [contradiction|tauto].
+  - assert (Hy : ~ In y seen) by (intros H; apply (mem_spec eqb Heq) in H; congruence).
+    cbn [In]. rewrite IH. cbn [In]. split.
+    + intros [->|[H1 H2]]; [tauto|]. split; [tauto|]. intros H. apply H2. now right.
+    + intros [[->|H1] H2]; [now left|].
+      destruct (eqb y x) eqn:E; [apply Heq in E; now left|].
+      right. split; [exact H1|]. intros [->|H]; [|contradiction].
+      rewrite (proj2 (Heq x x) eq_refl) in E. discriminate.
+Qed.
+
+Lemma pair_eqb_true (a b : pair) : pair_eqb a b = true <-> a = b.
+Proof.
+  destruct a as [l1 r1], b as [l2 r2]. unfold pair_eqb. cbn [fst snd].
+  rewrite andb_true_iff, toks_eqb_true. split.
+  - intros [H ->]. f_equal. destruct l1, l2; cbn in H; try discriminate; [apply toks_eqb_true in H; now subst|reflexivity].
+  - intros [= -> ->]. split; [|reflexivity]. destruct l2; cbn; [apply toks_eqb_refl|reflexivity].
+Qed.
+
+(* ================= the descriptors of a well-formed chain are good ================= *)
+Lemma nodes_big_op all (l : list lexpr) : l <> [] -> nodes_e (big_op all l) = flat_map nodes_e l.
+Proof.
+  induction l as [|x r IH]; [congruence|]. intros _. destruct r as [|y r'].
+  - cbn. now rewrite app_nil_r.
+  - rewrite big_op_cons2. destruct all; cbn [nodes_e flat_map]; rewrite IH by discriminate; reflexivity.
+Qed.
+
+Lemma nodes_group_expr (g : group) : g <> [] -> nodes_e (group_expr g) = map r_n g.
+Proof.
+  intros H. unfold group_expr. rewrite nodes_big_op by (destruct g; [exfalso; apply H; reflexivity|discriminate]).
+  rewrite flat_map_map. clear H. induction g; cbn in *; congruence.
+Qed.
+
+Lemma chain_mains_good : forall (gs : list group) L,
+  groups_ok gs = true -> forallb (node_accepted []) (nodes_e L) = true ->
+  forall d, In d (chain_mains L gs) -> good d = true.
+Proof.
+  induction gs as [|g r IH]; intros L Hok Hacc d Hd; [destruct Hd|].
+  cbn [groups_ok] in Hok. apply andb_true_iff in Hok. destruct Hok as [Hok Hr].
+  apply andb_true_iff in Hok. destruct Hok as [Hok Hmid].
+  apply andb_true_iff in Hok. destruct Hok as [Hne Hg].
+  destruct Hd as [<-|Hd].
+  - cbn [good]. rewrite Hne, Hacc. cbn [andb]. rewrite andb_true_r.
+    apply forallb_forall. intros x Hx. rewrite forallb_forall in Hg. specialize (Hg x Hx).
+    unfold rnode_ok in Hg. apply andb_true_iff in Hg. destruct Hg as [Hg H3].
+    apply andb_true_iff in Hg. destruct Hg as [H1 H2]. now rewrite H1, H3.
+  - apply (IH (group_expr g) Hr); [|exact Hd].
+    rewrite nodes_group_expr by (destruct g; [discriminate|discriminate]).
+    apply forallb_forall. intros n Hn. apply in_map_iff in Hn. destruct Hn as [x [<- Hx]].
+    rewrite forallb_forall in Hg. specialize (Hg x Hx). unfold rnode_ok in Hg.
+    apply andb_true_iff in Hg. destruct Hg as [Hg _]. apply andb_true_iff in Hg. tauto.
+Qed.
+
+Lemma chain_descs_good c : chain_ok c = true -> forall d, In d (chain_descs c) -> good d = true.
+Proof.
+  unfold chain_ok. intros H. apply andb_true_iff in H. destruct H as [H Hgs].
+  apply andb_true_iff in H. destruct H as [_ Hn].
+  intros d Hd. unfold chain_descs in Hd. apply in_app_or in Hd. destruct Hd as [Hd|Hd].
+  - apply in_map_iff in Hd. destruct Hd as [n [<- Hin]]. cbn [good].
+    rewrite forallb_forall in Hn. specialize (Hn n Hin). apply andb_true_iff in Hn. tauto.
+  - apply (chain_mains_good (ch_groups c) (ch_head c) Hgs); [|exact Hd].
+    apply forallb_forall. intros n Hin. rewrite forallb_forall in Hn. specialize (Hn n Hin).
+    apply andb_true_iff in Hn. tauto.
+Qed.
+
+Lemma chain_ok_groups c : chain_ok c = true -> groups_ok (ch_groups c) = true.
+Proof. unfold chain_ok. intros H. apply andb_true_iff in H. tauto. Qed.
+
+(* ================= stages 4-6 on the printed lines of well-formed chains ================= *)
+Definition line_acts (eoc : list (list tok)) (ls : graph) : list action :=
+  flat_map (fun c => flat_map (acts_of eoc) (chain_descs c)) ls.
+
+Definition dd_lines (ls : graph) : list (list tok) := dedup_first toks_eqb [] (map print_chain ls).
+
+Lemma dd_lines_in ls l : In l (dd_lines ls) <-> exists c, In c ls /\ l = print_chain c.
+Proof.
+  unfold dd_lines. rewrite (dedup_first_in toks_eqb toks_eqb_true). rewrite in_map_iff. cbn.
+  split; [intros [[c [E H]] _]; eauto|intros [c [H ->]]; split; [eauto|tauto]].
+Qed.
+
+Lemma eoc_in ls : (forall c, In c ls -> chain_ok c = true) ->
+  forall x, In x (lines_eoc (dd_lines ls)) <-> exists c, In c ls /\ In x (final_pieces c).
+Proof.
+  intros Hok x. unfold lines_eoc. rewrite in_flat_map. split.
+  - intros [ch [Hch Hx]]. apply in_map_iff in Hch. destruct Hch as [l [<- Hl]].
+    apply dd_lines_in in Hl. destruct Hl as [c [Hc ->]]. exists c. split; [exact Hc|].
+    now rewrite chain_eoc_final in Hx by (apply chain_ok_groups; auto).
+  - intros [c [Hc Hx]]. exists (split_on is_arrow (print_chain c)). split.
+    + apply in_map. apply dd_lines_in. eauto.
+    + now rewrite chain_eoc_final by (apply chain_ok_groups; auto).
+Qed.
+
+Lemma pairs_in ls : (forall c, In c ls -> chain_ok c = true) ->
+  forall p, In p (lines_pairs (dd_lines ls)) <-> exists c d, In c ls /\ In d (chain_descs c) /\ p = pair_of d.
+Proof.
+  intros Hok p. unfold lines_pairs. rewrite (dedup_first_in pair_eqb pair_eqb_true). cbn.
+  rewrite in_flat_map. split.
+  - intros [[ch [Hch Hp]] _]. apply in_map_iff in Hch. destruct Hch as [l [<- Hl]].
+    apply dd_lines_in in Hl. destruct Hl as [c [Hc ->]].
+    rewrite chain_pairs_descs in Hp by (apply chain_ok_groups; auto).
+    apply in_map_iff in Hp. destruct Hp as [d [<- Hd]]. eauto.
+  - intros [c [d [Hc [Hd ->]]]]. split; [|tauto].
+    exists (split_on is_arrow (print_chain c)). split.
+    + apply in_map. apply dd_lines_in. eauto.
+    + rewrite chain_pairs_descs by (apply chain_ok_groups; auto). now apply in_map.
+Qed.
+
+Lemma list_of_descs (ps : list pair) :
+  (forall p, In p ps -> exists d, good d = true /\ p = pair_of d) ->
+  exists ds, ps = map pair_of ds /\ forall d, In d ds -> good d = true.
+Proof.
+  induction ps as [|p r IH]; intros H.
+  - exists []. split; [reflexivity|intros d []].
+  - destruct (H p (or_introl eq_refl)) as [d [Hg ->]].
+    destruct IH as [ds [-> Hds]]; [intros q Hq; apply H; now right|].
+    exists (d :: ds). split; [reflexivity|]. intros d' [<-|Hd']; auto.
+Qed.
+
+Lemma terminals_ok_nil st : ps_ct st = [] -> terminals_ok st = true.
+Proof.
+  intros H. unfold terminals_ok. rewrite H. apply forallb_forall. intros r _. cbn. apply orb_true_r.
+Qed.
+
+Lemma in_act_oasserts acts x : In x (act_oasserts acts) <-> In (AOpt x) acts.
+Proof.
+  unfold act_oasserts. rewrite in_flat_map. split.
+  - intros [a [Ha Hx]]. destruct a; [destruct Hx|]. destruct Hx as [<-|[]]. exact Ha.
+  - intros H. exists (AOpt x). split; [exact H|now left].
+Qed.
+Lemma in_act_tasserts acts n e s :
+  In (n, e, s) (act_tasserts acts) <-> exists t, In (ATrig n t) acts /\ tg_expr t = e /\ tg_suicide t = s.
+Proof.
+  unfold act_tasserts. rewrite in_flat_map. split.
+  - intros [a [Ha Hx]]. destruct a; [|destruct Hx]. destruct Hx as [[= <- <- <-]|[]]. eauto.
+  - intros [t [H [<- <-]]]. exists (ATrig n t). split; [exact H|now left].
+Qed.
+Lemma in_act_tasks acts n : In n (act_tasks acts) <-> exists t, In (ATrig n t) acts.
+Proof.
+  unfold act_tasks. rewrite in_flat_map. split.
+  - intros [a [Ha Hx]]. destruct a; [|destruct Hx]. destruct Hx as [<-|[]]. eauto.
+  - intros [t H]. exists (ATrig n t). split; [exact H|now left].
+Qed.
+
+Theorem parse_lines_ok ls :
+  (forall c, In c ls -> chain_ok c = true) ->
+  let E := lines_eoc (dd_lines ls) in
+  let A := line_acts E ls in
+  forallb oassert_guard (act_oasserts A) = true ->
+  (forall x y, In x (act_oasserts A) -> In y (act_oasserts A) -> ocompat x y = true) ->
+  (forall n e s s', e <> [] -> In (n, e, s) (act_tasserts A) -> In (n, e, s') (act_tasserts A) -> s = s') ->
+  exists st, parse_lines [] (map print_chain ls) = Ok st
+    /\ tm_inv (ps_trig st) /\ om_inv (ps_opt st) /\ om_nodup (ps_opt st)
+    /\ (forall a, om_has (ps_opt st) a <-> In a (act_oasserts A))
+    /\ (forall n e s, e <> [] -> (tm_has (ps_trig st) (n, e, s) <-> In (n, e, s) (act_tasserts A)))
+    /\ (forall n, tm_task (ps_trig st) n <-> In n (act_tasks A)).
+Proof.
+  intros Hok E A Hg Hoc Htc.
+  unfold parse_lines. fold (dd_lines ls). fold E.
+  set (ps := lines_pairs (dd_lines ls)).
+  assert (Hps : forall p, In p ps -> exists d, good d = true /\ p = pair_of d).
+  { intros p Hp. apply (pairs_in ls Hok) in Hp. destruct Hp as [c [d [Hc [Hd ->]]]].
+    exists d. split; [|reflexivity]. eapply chain_descs_good; eauto. }
+  destruct (list_of_descs ps Hps) as [ds [Eds Hds]].
+  destruct (fold_pairs E ds empty_state Hds) as [sb [Hct Efold]].
+  rewrite <- Eds in Efold. rewrite Efold.
+  set (acts := flat_map (pair_actions E) ps).
+  assert (Hset : forall a, In a acts <-> In a A).
+  { intros a. unfold acts, A, line_acts. rewrite !in_flat_map. split.
+    - intros [p [Hp Ha]]. apply (pairs_in ls Hok) in Hp. destruct Hp as [c [d [Hc [Hd ->]]]].
+      exists c. split; [exact Hc|]. apply in_flat_map. exists d. split; [exact Hd|].
+      rewrite <- pair_actions_of; [exact Ha|]. eapply chain_descs_good; eauto.
+    - intros [c [Hc Ha]]. apply in_flat_map in Ha. destruct Ha as [d [Hd Ha]].
+      exists (pair_of d). split; [apply (pairs_in ls Hok); eauto|].
+      rewrite pair_actions_of; [exact Ha|]. eapply chain_descs_good; eauto. }
+  assert (Hso : forall x, In x (act_oasserts acts) <-> In x (act_oasserts A))
+    by (intros x; rewrite !in_act_oasserts; apply Hset).
+  assert (Hst : forall n e s, In (n, e, s) (act_tasserts acts) <-> In (n, e, s) (act_tasserts A)).
+  { intros n e s. rewrite !in_act_tasserts. split; intros [t [H R]]; exists t; (split; [apply Hset; exact H|exact R]). }
+  assert (Hsk : forall n, In n (act_tasks acts) <-> In n (act_tasks A)).
+  { intros n. rewrite !in_act_tasks. split; intros [t H]; exists t; apply Hset; exact H. }
+  destruct (core_fold_ok acts [] []) as [tm' [om' [Ec [Htm [Hom [Hnd [Ho [Hh Ht]]]]]]]].
+  - split; [constructor|intros n l []].
+  - intros k v H. discriminate.
+  - constructor.
+  - apply forallb_forall. intros x Hx. rewrite forallb_forall in Hg. apply Hg. now apply Hso.
+  - intros x y [Hx|Hx] [Hy|Hy]; try (destruct x as [[? ?] ?]; discriminate Hx);
+      try (destruct y as [[? ?] ?]; discriminate Hy). apply Hoc; now apply Hso.
+  - intros n e s s' He [[l [t [Hx _]]]|Hs] [[l' [t' [Hy _]]]|Hs']; try discriminate.
+    apply (Htc n e s s' He); now apply Hst.
+  - assert (Ec' : fold_res apply_core acts (core_of empty_state) = Ok (tm', om')) by exact Ec.
+    rewrite Ec'. cbn [lift bind].
+    rewrite terminals_ok_nil by (cbn; rewrite Hct; reflexivity).
+    eexists. split; [reflexivity|]. cbn [with_core ps_trig ps_opt fst snd].
+    split; [exact Htm|]. split; [exact Hom|]. split; [exact Hnd|]. split; [|split].
+    + intros a. rewrite Ho, <- Hso. split; [intros [H|H]; [destruct a as [[? ?] ?]; discriminate H|exact H]|now right].
+    + intros n e s He. rewrite (Hh n e s He), <- Hst. split; [intros [[l [t [H _]]]|H]; [discriminate|exact H]|now right].
+    + intros n. rewrite Ht, <- Hsk. split; [intros [H|H]; [exfalso; apply H; reflexivity|exact H]|now right].
 Qed.
